@@ -219,7 +219,13 @@ func ZzC15L4()      { zzC15(10001, 4) }
 // syncWithChain must roll the wallet back to the last common block. The
 // wallet is shutting down, so the final rescan request returns
 // ErrWalletShuttingDown after the rollback was committed.
-func zzC15Startup(depth int) {
+func zzC15Startup(depth int) { zzC15StartupF(depth, 0) }
+
+// zzC15StartupF: fault > 0 makes the k-th database write of the first
+// syncWithChain attempt fail (k symbolic); the attempt reports an error, the
+// wallet process is restarted (fault == 1: reopened from the database, as
+// after a crash) and synchronises again: the outcome is the fault-free one.
+func zzC15StartupF(depth, fault int) {
 	w := &zzC15World{zzWalletWorld: zzNewWalletWorld(10001, 5)}
 	c := w.chain
 	// a wallet transaction confirmed in one of the last blocks
@@ -255,7 +261,45 @@ func zzC15Startup(depth int) {
 		verifrt.Reach("wallet-tx-orphaned")
 	}
 	bs := &waddrmgr.BlockStamp{Height: birthday.Height, Hash: birthday.Hash, Timestamp: birthday.Time}
-	close(w.w.quit)
+	if fault > 0 {
+		k := verifrt.Int("fault-at")
+		verifrt.Assume(verifrt.And(k >= 0, k < 48))
+		verifrt.ArmFault(k)
+		close(w.w.quit)
+		ferr := w.w.syncWithChain(bs)
+		hit := verifrt.FaultHit()
+		verifrt.ArmFault(-1)
+		if hit {
+			verifrt.Reach("fault-hit")
+			verifrt.Assert(ferr != nil && ferr != ErrWalletShuttingDown, "c15-startup-failed-write-reported")
+			if fault == 1 {
+				// restart: a new process opens the database
+				nw, err := Open(w.db, zzWPub, nil, w.params, 0)
+				zzW(err)
+				nw.chainClient = c
+				close(nw.quit)
+				w.w = nw
+			} else {
+				// the same process tries again (the retry loop of
+				// handleChainNotifications)
+				verifrt.Reach("retried-in-the-same-process")
+			}
+			// the birthday block as the next attempt finds it
+			zzW(walletdb.View(w.db, func(tx walletdb.ReadTx) error {
+				b, _, err := w.w.Manager.BirthdayBlock(tx.ReadBucket(waddrmgrNamespaceKey))
+				if err == nil {
+					bs = &b
+				}
+				return nil
+			}))
+		} else {
+			// the first attempt ran to the rescan request without a fault
+			verifrt.Assert(ferr == ErrWalletShuttingDown, "c15-startup-first-attempt-stops-at-the-rescan")
+			verifrt.Reach("fault-not-reached")
+		}
+	} else {
+		close(w.w.quit)
+	}
 	err = w.w.syncWithChain(bs)
 	verifrt.Assert(err == ErrWalletShuttingDown, "c15-startup-sync-reaches-rescan")
 
@@ -329,6 +373,9 @@ func zzC15StartupRecovery(depth int) {
 
 func ZzC15StartupRecovery1() { zzC15StartupRecovery(1) }
 func ZzC15StartupRecovery2() { zzC15StartupRecovery(2) }
+func ZzC15StartupFault1() { zzC15StartupF(1, 1) }
+func ZzC15StartupFault2() { zzC15StartupF(2, 1) }
+func ZzC15StartupRetry1() { zzC15StartupF(1, 2) }
 func ZzC15Startup1() { zzC15Startup(1) }
 func ZzC15Startup2() { zzC15Startup(2) }
 func ZzC15Startup3() { zzC15Startup(3) }
